@@ -112,9 +112,17 @@ def main():
         sys.stdout.flush()
     out = os.path.join(root, "results.json")
     prev = {}
-    if only and os.path.exists(out):
+    if os.path.exists(out):
         with open(out, encoding="utf-8") as f:
             prev = json.load(f)
+    if not with_baseline:
+        # keep the recorded outcome of the repository's suite from an earlier --baseline run
+        for k, rec in results.items():
+            for fld in ("baseline_passed", "baseline_failed", "survives_suite", "doctests_failed"):
+                if fld in prev.get(k, {}) and fld not in rec:
+                    rec[fld] = prev[k][fld]
+    if not only:
+        prev = {k: v for k, v in prev.items() if k in results}
     prev.update(results)
     with open(out, "w", encoding="utf-8") as f:
         json.dump(prev, f, ensure_ascii=False, indent=1, sort_keys=True)
